@@ -103,7 +103,7 @@ where
         let seq = frame.sequence();
         if seq >= self.cid_deque.largest() {
             return Err(QuicError::new(
-                ErrorKind::ConnectionIdLimit,
+                ErrorKind::ProtocolViolation,
                 frame.frame_type().into(),
                 format!(
                     "Sequence({seq}) in RetireConnectionIdFrame exceeds the largest one({}) issued by us",
